@@ -377,7 +377,18 @@ def run_harness(cases, harness_bin, iters, sched, seed, trace_dir=None, trace_ca
         if p.returncode == 3:
             hung = True             # an OS-thread par group did not finish: reported as an F line
         elif p.returncode != 0:
-            raise common.CheckError(f"par_harness exited with {p.returncode}:\n{o[-1500:]}")
+            # the process died (abort / unexpected panic, e.g. a panic while panicking inside
+            # salsa under an explored schedule): the case that was running is a FINDING, not a
+            # broken check; the cases behind it in this shard were not run
+            part = parse_harness(o)
+            crashed = [cid for cid, c in part.items() if not c.get("end") and not c.get("skipped")]
+            if not crashed:
+                raise common.CheckError(f"par_harness exited with {p.returncode}:\n{o[-1500:]}")
+            for cid in crashed:
+                part[cid]["fails"].append(dict(i=-1, kind="crash", sched=sched,
+                                               msg=f"par_harness died with exit status {p.returncode} while running this case: {o[-300:]!r}"))
+            out.update(part)
+            continue
         out.update(parse_harness(o))
     import shutil
     shutil.rmtree(tmpd, ignore_errors=True)
